@@ -201,7 +201,7 @@ def plan(prop, tier):
                   Variants='{"laws"}', invs=["T1_RoundTrip", "T16_Laws"]),
                 G("lawsi", Leaves="<-LvAB", Quants="<-QBasic", MaxSize=3, MaxLen=3, FlagSets="<-AllFlags",
                   Alpha="{97, 65, 10}", Variants='{"laws"}', invs=["T16_Laws"]),
-                G("lawsfix", Leaves="<-LvOptFix", Quants="<-QFix", MaxSize=3 if q else 4, MaxLen=4, Alpha="{97, 98}",
+                G("lawsfix", Leaves="<-LvLawFix" if q else "<-LvOptFix", Quants="<-QLawFix" if q else "<-QFix", MaxSize=3 if q else 4, MaxLen=5, Alpha="{97, 98}",
                   Variants='{"laws"}', invs=["T1_RoundTrip", "T16_Laws"]),
                 T("rand", "general", 1500, 30000),
                 {"type": "facts", "tag": "lower", "profiles": [("general", 400, 6000), ("loops", 300, 4000)]}]
